@@ -86,6 +86,25 @@ func Index(
 						return err
 					}
 
+					// Skip the zero blocks with which i.e. GNU tar pads its end-of-archive marker up to the blocking factor
+					skipped, found, err := skipZeroBlocks(reader.Drive)
+					if err != nil {
+						return err
+					}
+
+					if !found {
+						// EOF
+						hdr = nil
+
+						break
+					}
+
+					if skipped > 0 {
+						totalBlocks := int64(record)*int64(pipes.RecordSize) + int64(block) + skipped
+						record = totalBlocks / int64(pipes.RecordSize)
+						block = totalBlocks - (record * int64(pipes.RecordSize))
+					}
+
 					tr = tar.NewReader(reader.Drive)
 
 					hdr, err = tr.Next()
@@ -238,6 +257,33 @@ func Index(
 	}
 
 	return nil
+}
+
+// skipZeroBlocks positions the drive at the next block that is not filled with zeros and returns
+// the number of blocks it skipped; found is false if the drive ends before such a block
+func skipZeroBlocks(drive io.ReadSeeker) (skipped int64, found bool, err error) {
+	buf := make([]byte, config.MagneticTapeBlockSize)
+	for {
+		if _, err := io.ReadFull(drive, buf); err != nil {
+			if err == io.EOF || err == io.ErrUnexpectedEOF {
+				return skipped, false, nil
+			}
+
+			return skipped, false, err
+		}
+
+		for _, b := range buf {
+			if b != 0 {
+				if _, err := drive.Seek(-int64(len(buf)), io.SeekCurrent); err != nil {
+					return skipped, false, err
+				}
+
+				return skipped, true, nil
+			}
+		}
+
+		skipped++
+	}
 }
 
 func indexHeader(
